@@ -38,7 +38,7 @@ def classify(pid, d):
 
 CLASSIFIERS = {}
 
-ALL_EXTRACTORS = ["Basic", "Message", "Conversion", "Session", "Service", "SigGrammar", "Value", "Reader", "Encoding", "GenReaders", "Endpoint", "Stream", "Client", "Queues", "Auth", "Calls", "Signals", "Property", "Directory", "Mailbox", "IdlGrammar"]
+ALL_EXTRACTORS = ["Basic", "Message", "Conversion", "Session", "Service", "SigGrammar", "Value", "Reader", "Encoding", "GenReaders", "Endpoint", "Stream", "Client", "Queues", "Auth", "Calls", "Signals", "Property", "Directory", "Mailbox", "IdlGrammar", "GenTypes"]
 
 
 def lean_string_list(path, name):
@@ -243,6 +243,36 @@ PROPS = {
             "a subscriber that stops reading its events channel is outside the statement",
         ],
         "timeout": {"quick": 600, "thorough": 3000},
+    },
+    "C05": {
+        "level": "proof",
+        "extract": ["GenTypes", "Basic", "Encoding"],
+        "extra_modules": ["QiVerif.Lemmas.Codec", "QiVerif.Lemmas.Decode"],
+        "rule": "IDL packages (8, thorough 80; 40% small ones with one or two actions, the others with up to three structs "
+                "referring to each other, one or two interfaces, 3-8 actions: methods with 0-3 parameters and any return "
+                "type or none, signals with 1-3 parameters, properties with 1-3 parameters; types over every scalar, "
+                "str, any, Vec, Map with scalar keys, Tuple (the empty one included) and the package's structs, nested; "
+                "lower-case, camel-case, underscore and digit identifiers) are parsed by idl.ParsePackage, rendered by "
+                "stub.GeneratePackage (implementor interface, stub, proxy, structs), compiled by go build in a scratch "
+                "module against the current tree together with a generated recording implementor, and run: every "
+                "interface on a real server with a directory, reached through a real session; per action 3 (thorough 6) "
+                "operations with generated values (boundary integers, empty and non-empty containers, binary strings, "
+                "dynamic values of nested types): a call through the proxy (arguments as received by the implementor, "
+                "result as returned to the caller), a signal through the helper (event as received by a generated "
+                "subscriber), a property through Set / the stub's callback / Get and through the helper's Update / Get; "
+                "values cross to the run as bytes of the documented layout written and read by an independent codec; "
+                "every answer is compared with the model's pipeline and with the value sent; 21 listed packages outside "
+                "the class and the property of type any are run as well (known findings)",
+        "assumptions": [
+            "that the generated text compiles is established per generated package by the Go compiler (translation validation by "
+            "sampling), not proved: Go's type checker is not modelled",
+            "between the two generated halves the bytes travel unchanged: framing (C01), routing (C04), signal delivery (C13) and "
+            "the property register (C14) are the subject of those properties and are only exercised here",
+            "parameters of interface type (object references to live objects) are outside the generated values; they compile "
+            "(observed) but are not driven",
+            "identifier classes the generators do not sanitise are listed findings, not part of the class",
+        ],
+        "timeout": {"quick": 1500, "thorough": 6000},
     },
     "C06": {
         "level": "proof",
